@@ -284,6 +284,19 @@ impl Prop for C02 {
             chains = next;
         }
         tys.extend(of_towers(if tier.thorough() { 4 } else { 3 }));
+        // --- every other built-in type in every kind of position (the type mapping is one match arm per type)
+        for (asn, _, _, _) in BUILTINS.iter() {
+            let b = Ty::Builtin(asn.to_string());
+            tys.push(b.clone());
+            tys.push(Ty::SeqOf(Box::new(b.clone())));
+            tys.push(Ty::SetOf(Box::new(b.clone())));
+            for opt in [Opt::Req, Opt::Optional] {
+                let comps = vec![Comp { name: "c0".into(), ty: Ty::Bool, opt: Opt::Req }, Comp { name: "c1".into(), ty: b.clone(), opt: opt.clone() }, Comp { name: "c2".into(), ty: Ty::SeqOf(Box::new(b.clone())), opt: opt.clone() }];
+                tys.push(Ty::Seq(Body::of(comps.clone())));
+                tys.push(Ty::Set(Body::of(comps)));
+            }
+            tys.push(Ty::Choice(Body::of(vec![Comp { name: "c0".into(), ty: b.clone(), opt: Opt::Req }, Comp { name: "c1".into(), ty: Ty::SetOf(Box::new(b.clone())), opt: Opt::Req }, Comp { name: "c2".into(), ty: Ty::Null, opt: Opt::Req }])));
+        }
         // environments
         let mut out = vec![];
         let envs: Vec<(&str, bool)> = vec![("AUTOMATIC", false), ("EXPLICIT", false), ("IMPLICIT", false), ("", false), ("AUTOMATIC", true), ("EXPLICIT", true), ("IMPLICIT", true), ("", true)];
